@@ -22,15 +22,29 @@ UNIVERSE = [
     None, False, True, 0, 1, -1, 2, 3, 10, -7, 100, 0.5, -0.5, 1.5, 2.25, 2 ** 31, 2 ** 53, 2 ** 53 + 1, 2 ** 63, -(2 ** 63), 2 ** 64 + 1, 10 ** 30, float("nan"), float("inf"), float("-inf"),
     "", "a", "b", "ab", "abc", "a,b", "A", " a ", "1", "10", "-1.5", "1e2", "0x1", "nan", "true", "null", "[1]", "{\"a\":1}", "é", "日本語", "\u0000", "a\nb", "\U0001F600", "%41", "YQ==",
     [], [None], [1], [1, 2], [2, 1, 3], [1, [2]], [[1, 2], [3, 4]], ["a", "b"], ["a", 1, None], [[]], [{}], [0.5, 1], [1, 1, 2], [[1], [1]], ["b", "a"], [{"a": 1}, {"a": 2}], [[1, "a"]],
+    list(range(20, 0, -1)), [{"k": i % 3, "i": i} for i in range(16)], [1, 2 ** 64 + 1, "a"], [2 ** 64 + 1, -(2 ** 70)], [0.5, 2 ** 70, None], ["a", 10 ** 20, True],
     {}, {"a": 1}, {"a": 1, "b": 2}, {"b": 2, "a": {"c": 3}}, {"a": [1, 2]}, {"a": None}, {"key": "k", "value": 1}, {"a": {"a": {"a": 1}}}, {"": 0}, {"start": 1, "end": 2},
 ]
-SUB = [None, True, 0, 1, -1, 1.5, 2 ** 64 + 1, "a", "ab", "", [], [1, 2], ["a"], {"a": 1}, {}]
+SUB = [None, True, 0, 1, -1, 1.5, 2 ** 64 + 1, "a", "ab", "", [], [1, 2], ["a"], {"a": 1}, {}, list(range(14, 0, -1)), [1, 2 ** 64 + 1, "a"]]
 BYTES = [{"t": "bytes", "b": [255]}, {"t": "bytes", "b": [97, 192, 128, 98]}, {"t": "arr", "a": [{"t": "bytes", "b": [237, 160, 128]}]}]
 OPERATORS = ["+", "-", "*", "/", "%", "==", "!=", "<", "<=", ">", ">=", "and", "or", "//"]
 SKIP = {"input", "inputs", "debug", "stderr", "input_filename", "halt", "halt_error", "now", "localtime", "strflocaltime", "env", "builtins", "modulemeta",
         "get_search_list", "input_line_number", "$__loc__"}
 # loops that never end on constant arguments are cut by the budget; these mostly do and only waste it
 SLOW = {"repeat", "range", "until", "while", "recurse", "limit", "combinations", "walk"}
+
+
+def small_numbers(v):
+    t = v.get("t")
+    if t == "num":
+        return abs(v["n"]) < 2 ** 20
+    if t in ("big", "float"):
+        return False
+    if t == "arr":
+        return all(small_numbers(x) for x in v["a"])
+    if t == "obj":
+        return all(small_numbers(x[1]) for x in v["o"])
+    return True
 
 
 def call(name, ar):
@@ -80,6 +94,11 @@ def run(tier, seed, replay):
             n = per if name not in SLOW else max(3, per // 5)
             full = not quick and ar == 0
             ins = [{"t": "arr", "a": [x]} for x in uni] if full else tuples(ar, n)
+            if name in ("sort", "sort_by", "group_by", "unique", "unique_by", "min_by", "max_by", "join", "add", "flatten", "transpose", "reverse", "tojson", "implode", "to_entries", "bsearch"):
+                # boundary cells that are always included: long arrays (stability needs > 12 tied elements), integers beyond 64 bits
+                for big in (list(range(20, 0, -1)), [{"k": i % 3, "i": i} for i in range(16)], [1, 2 ** 64 + 1, "a"], [128, 55296, 1114112, -1]):
+                    ins.append({"t": "arr", "a": [jqgen.V(big)] + [r.choice(sub) for _ in range(ar)]})
+                    ins.append({"t": "arr", "a": [jqgen.V(big)] + [jqgen.V(x) for x in (["-", None, 0] if name == "join" else [0, None, "k"])][:ar]})
             src = ".[0] as $x | .[1] as $a | .[2] as $b | .[3] as $c | $x | " + call(name, ar)
             cases.append({"src": src, "inputs": ins, "name": name + "/%d" % ar})
         for op in OPERATORS:
@@ -124,6 +143,8 @@ def run(tier, seed, replay):
                     b = base["runs"][j]
                     if run_.get("long") or b.get("long"):
                         continue
+                    if c["rep"] == 3 and not small_numbers(run_["in"]):
+                        continue      # integers carried as float64 are interchangeable with int only while everything stays exact in doubles
                     eb, ec = b.get("err"), run_.get("err")
                     same = run_["out"] == b["out"] and (eb is None) == (ec is None) and (eb is None or (eb.get("k"), eb.get("c")) == (ec.get("k"), ec.get("c")) and (eb["v"].get("t") == "opaque" or eb["v"] == ec["v"]))
                     if not same:
